@@ -45,7 +45,7 @@ package pullapi
 
 //@ func (*Server).AckSingle
 //@   requires s != nil
-//@   modifies storeMutations, lastStoreErr, lastStoreLease, lastStoreOp, remembered
+//@   modifies storeMutations, lastStoreErr, lastStoreLease, lastStoreOp, remembered, lastStoreAmount
 //@   calls rememberCompletedLease requires [C04:remember_only_after_store_success] storeMutations == old(storeMutations) + 1 && lastStoreErr == nil && lastStoreLease == arg1 && arg2 == "ack"
 //@   ensures [C04:conflict_is_409] storeMutations == old(storeMutations) + 1 && leaseConflict(lastStoreErr) ==> result != nil && result.StatusCode == 409
 //@   ensures [C04:store_error_never_success] storeMutations == old(storeMutations) + 1 && lastStoreErr != nil ==> result != nil
@@ -55,7 +55,8 @@ package pullapi
 
 //@ func (*Server).NackSingle
 //@   requires s != nil
-//@   modifies storeMutations, lastStoreErr, lastStoreLease, lastStoreOp, remembered
+//@   modifies storeMutations, lastStoreErr, lastStoreLease, lastStoreOp, remembered, lastStoreAmount
+//@   ensures [C05:an_acknowledged_nack_carries_the_requested_delay] result == nil && !dead && storeMutations == old(storeMutations) + 1 ==> lastStoreAmount == delay
 //@   calls rememberCompletedLease requires [C04:remember_only_after_store_success] storeMutations == old(storeMutations) + 1 && lastStoreErr == nil && lastStoreLease == arg1 && arg2 == "nack"
 //@   ensures [C04:conflict_is_409] storeMutations == old(storeMutations) + 1 && leaseConflict(lastStoreErr) ==> result != nil && result.StatusCode == 409
 //@   ensures [C04:store_error_never_success] storeMutations == old(storeMutations) + 1 && lastStoreErr != nil ==> result != nil
@@ -65,7 +66,8 @@ package pullapi
 
 //@ func (*Server).Extend
 //@   requires s != nil
-//@   modifies storeMutations, lastStoreErr, lastStoreLease, lastStoreOp
+//@   modifies storeMutations, lastStoreErr, lastStoreLease, lastStoreOp, lastStoreAmount
+//@   ensures [C03:an_acknowledged_extension_is_the_extension_the_store_applied] result == nil ==> lastStoreAmount == extendBy
 //@   ensures [C04:conflict_is_409] storeMutations == old(storeMutations) + 1 && leaseConflict(lastStoreErr) ==> result != nil && result.StatusCode == 409
 //@   ensures [C04:success_means_store_success] result == nil ==> storeMutations == old(storeMutations) + 1 && lastStoreErr == nil && lastStoreLease == trim(leaseID) && lastStoreOp == "extend"
 //@   ensures [C04:an_operation_error_carries_an_error_status] result != nil ==> result.StatusCode >= 400
@@ -155,7 +157,7 @@ package pullapi
 
 //@ func (*Server).AckBatch
 //@   requires s != nil
-//@   modifies storeMutations, lastStoreErr, lastStoreLease, lastStoreOp, remembered, lastBatchOpErr, batchOps, lastSuccessful
+//@   modifies storeMutations, lastStoreErr, lastStoreLease, lastStoreOp, remembered, lastBatchOpErr, batchOps, lastSuccessful, lastStoreAmount
 //@   calls successfulLeaseIDs requires [C04:successful_ids_computed_from_the_batch_result] batchOps == old(batchOps) + 1 && lastBatchOpErr == nil && arg1 == pendingLeaseIDs && arg2 == res.Conflicts
 //@   calls rememberCompletedLease requires [C04:remember_only_leases_the_store_settled] arg2 == "ack" && ((batchOps == old(batchOps) + 1 && lastBatchOpErr == nil && inIDs(lastSuccessful, arg1)) || (batchOps == old(batchOps) && storeMutations > old(storeMutations) && lastStoreErr == nil && lastStoreLease == arg1 && lastStoreOp == "ack"))
 //@   loop 2 invariant [batch_facts_kept] batchOps == old(batchOps) + 1 && lastBatchOpErr == nil && lastSuccessful == pre(lastSuccessful)
@@ -166,7 +168,7 @@ package pullapi
 
 //@ func (*Server).NackBatch
 //@   requires s != nil
-//@   modifies storeMutations, lastStoreErr, lastStoreLease, lastStoreOp, remembered, lastBatchOpErr, batchOps, lastSuccessful
+//@   modifies storeMutations, lastStoreErr, lastStoreLease, lastStoreOp, remembered, lastBatchOpErr, batchOps, lastSuccessful, lastStoreAmount
 //@   calls successfulLeaseIDs requires [C04:successful_ids_computed_from_the_batch_result] batchOps == old(batchOps) + 1 && lastBatchOpErr == nil && arg1 == pendingLeaseIDs && arg2 == res.Conflicts
 //@   calls rememberCompletedLease requires [C04:remember_only_leases_the_store_settled] arg2 == "nack" && ((batchOps == old(batchOps) + 1 && lastBatchOpErr == nil && inIDs(lastSuccessful, arg1)) || (batchOps == old(batchOps) && storeMutations > old(storeMutations) && lastStoreErr == nil && lastStoreLease == arg1 && (lastStoreOp == "nack" || lastStoreOp == "dead")))
 //@   calls queue.LeaseBatchStore.MarkDeadBatch requires [C04:dead_letter_only_when_asked] dead && callee_reason == reason && callee_leaseIDs == pendingLeaseIDs
